@@ -250,6 +250,13 @@ def gen(rng, tier):
         a = ["s" * (sz + j % 3) + str(j) for j in range(k)]
         b = [[j] * max(1, sz // 2 + (j % 2)) for j in range(k + rng.choice([0, 0, 1, -1]))]
         cases.append({"f": a, "t": b, "opts": rng.choice([{}, {"allow_list_edits": False}, {}])})
+    # lists of a few hundred elements with list edits switched off (positional pairing must not depend on the length)
+    for L, o in ((255, {"allow_list_edits": False}), (256, {"allow_list_edits": False}), (300, {"allow_list_edits_when_same_length": False}),
+                 (257, {"allow_list_edits": False, "allow_key_edits": False, "auto_match_keys": False})):
+        a = list(range(L))
+        b = a[1:] + [a[0]] if "allow_list_edits_when_same_length" in o else a[1:]
+        cases.append({"f": a, "t": b, "opts": o})
+        cases.append({"f": {"k": a, "n": 1}, "t": {"k": b, "n": 1}, "opts": o})
     # string edits whose cost is an exact multiple of 2^8 (a cost matrix that wraps would report 0)
     for f, t in (("x" * 256, ""), ("", "y" * 512), ({"k": "ab" * 150}, {"k": "ab" * 22}), (["q" * 256 + "r"], ["r"]), ("a" * 128 + "b", "b" + "c" * 128)):
         cases.append({"f": f, "t": t, "opts": {}})
